@@ -1,8 +1,10 @@
 use crate::engine::PropDef;
 
 pub mod c28;
+pub mod handler;
+pub mod sched;
 
-pub static ALL: &[&PropDef] = &[&c28::DEF];
+pub static ALL: &[&PropDef] = &[&sched::C22, &sched::C23, &sched::C24, &sched::C25, &handler::C26, &handler::C27, &c28::DEF, &handler::C31];
 
 pub fn extra_command(_cmd: &str, _args: &[String]) -> Option<i32> {
     None
